@@ -21,13 +21,13 @@ import json
 
 from lib import gen, graphcap
 
-# hand-written calls that the shared generator does not produce: ternary `where`, unary operations, four operands,
+# hand-written calls that the shared generator does not produce: ternary `where`, a single operand, four operands,
 # unnamed unit axes, broadcast output axes, nested groups, reductions of grouped / unit / all axes, keepdims
 EXTRA = [
     {"op": "where", "family": "elementwise", "desc": "a b, a, b -> b a", "shapes": [(2, 3), (2,), (3,)], "kwargs": {}},
     {"op": "where", "family": "elementwise", "desc": "(a b), b a, -> a b c", "shapes": [(6,), (3, 2), ()], "kwargs": {"a": 2, "c": 2}},
-    {"op": "exp", "family": "elementwise", "desc": "a (b c) -> c b a", "shapes": [(2, 6)], "kwargs": {"b": 2}},
-    {"op": "negative", "family": "elementwise", "desc": "a 1 b -> b a d", "shapes": [(2, 1, 3)], "kwargs": {"d": 2}},
+    {"op": "logical_and", "family": "elementwise", "desc": "a (b c) -> c b a", "shapes": [(2, 6)], "kwargs": {"b": 2}},
+    {"op": "minimum", "family": "elementwise", "desc": "a 1 b, (b a) -> b a d", "shapes": [(2, 1, 3), (6,)], "kwargs": {"d": 2}},
     {"op": "add", "family": "elementwise", "desc": "a, b, a b, c -> c (a b)", "shapes": [(2,), (3,), (2, 3), (4,)], "kwargs": {}},
     {"op": "multiply", "family": "elementwise", "desc": "a (b c), c a 1, b -> b a c d", "shapes": [(2, 6), (3, 2, 1), (2,)], "kwargs": {"d": 4}},
     {"op": "maximum", "family": "elementwise", "desc": "a, a -> a", "shapes": [(3,), (3,)], "kwargs": {}},
